@@ -61,6 +61,7 @@ type xSetE struct {
 	t    int
 	nt   int
 	subs []*xSetE
+	mp   bool // root only: render with minimal parentheses
 }
 
 type xPart struct {
@@ -93,7 +94,21 @@ type xGram struct {
 
 func termText(t int) string { return "'" + string(rune('a'+t)) + "'" }
 
-func (s *xSetE) String() string {
+func (s *xSetE) String() string { return s.render(s.mp) }
+
+func setPrec(op byte) int {
+	switch op {
+	case '|':
+		return 1
+	case '&':
+		return 2
+	}
+	return 3
+}
+
+// render writes the set expression; with mp only the parentheses the tm grammar needs are written
+// (`&` binds tighter than `|`, both left-associative, `~` applies to a primary).
+func (s *xSetE) render(mp bool) string {
 	switch s.op {
 	case 't':
 		return termText(s.t)
@@ -104,20 +119,24 @@ func (s *xSetE) String() string {
 	case 'a':
 		return fmt.Sprintf("N%d", s.nt)
 	case '~':
-		return "~" + s.subs[0].paren()
+		sub := s.subs[0].render(mp)
+		if s.subs[0].op == '|' || s.subs[0].op == '&' {
+			sub = "(" + sub + ")"
+		}
+		return "~" + sub
 	}
 	var parts []string
-	for _, sub := range s.subs {
-		parts = append(parts, sub.paren())
+	for i, sub := range s.subs {
+		t := sub.render(mp)
+		if sub.op == '|' || sub.op == '&' {
+			need := !mp || setPrec(sub.op) < setPrec(s.op) || (i > 0 && setPrec(sub.op) == setPrec(s.op))
+			if need {
+				t = "(" + t + ")"
+			}
+		}
+		parts = append(parts, t)
 	}
 	return strings.Join(parts, " "+string(s.op)+" ")
-}
-
-func (s *xSetE) paren() string {
-	if s.op == '|' || s.op == '&' {
-		return "(" + s.String() + ")"
-	}
-	return s.String()
 }
 
 func (p *xPart) isPrimary() bool {
@@ -487,7 +506,167 @@ func genXGram(r *rand.Rand, findings bool) (*xGram, map[string]bool) {
 		}
 		g.nts = append(g.nts, rules)
 	}
+	if r.Intn(100) < 14 {
+		x.setNameFamily(g)
+	}
+	if r.Intn(100) < 14 {
+		x.separatorFamily(g)
+	}
 	return g, x.feat
+}
+
+// inject puts a part into the body of a random rule (never as the whole body of a nonterminal)
+func (x *xGen) inject(g *xGram, p *xPart) {
+	var cands []*xRule
+	for _, rules := range g.nts {
+		if len(rules) == 1 && len(rules[0].parts) == 1 && (rules[0].parts[0].kind == xSetK || rules[0].parts[0].kind == xLookahead) {
+			continue // a nonterminal that is a set / lookahead stays one
+		}
+		cands = append(cands, rules...)
+	}
+	if len(cands) == 0 {
+		return
+	}
+	rl := cands[x.r.Intn(len(cands))]
+	if len(rl.parts) == 0 {
+		rl.parts = append(rl.parts, &xPart{kind: xSym, term: true, sym: x.r.Intn(x.k)})
+	}
+	at := x.r.Intn(len(rl.parts) + 1)
+	rl.parts = append(rl.parts[:at:at], append([]*xPart{p}, rl.parts[at:]...)...)
+}
+
+// simple value of a terminal-only set expression (bit t+2 = terminal 'a'+t; universe = eoi, invalid_token, chars)
+func (x *xGen) setVal(s *xSetE) uint64 {
+	switch s.op {
+	case 't':
+		return 1 << uint(2+s.t)
+	case '|':
+		return x.setVal(s.subs[0]) | x.setVal(s.subs[1])
+	case '&':
+		return x.setVal(s.subs[0]) & x.setVal(s.subs[1])
+	}
+	return ^x.setVal(s.subs[0]) & (1<<uint(2+x.k) - 1)
+}
+
+// setNameFamily adds 2-3 set(...) clauses to ONE grammar that share the flat sequence of atoms,
+// operators and `~` marks — hence the provisional name, which drops parentheses (`~(a | b)` vs `~a | b`,
+// `(a | b) & (b | c)` vs `a | b & b | c`) — but are grouped differently, so they are different sets.
+func (x *xGen) setNameFamily(g *xGram) {
+	for try := 0; try < 30; try++ {
+		n := 2 + x.r.Intn(3)
+		atoms := make([]int, n)
+		ops := make([]byte, n-1)
+		nots := make([]bool, n)
+		for i := range atoms {
+			atoms[i] = x.r.Intn(x.k)
+			nots[i] = x.r.Intn(100) < 25
+		}
+		for i := range ops {
+			ops[i] = '|'
+			if x.r.Intn(100) < 45 {
+				ops[i] = '&'
+			}
+		}
+		var build func(lo, hi int, pending bool) *xSetE
+		build = func(lo, hi int, pending bool) *xSetE {
+			// pending: a `~` mark at atom lo that has not been placed yet
+			var t *xSetE
+			if lo == hi {
+				t = &xSetE{op: 't', t: atoms[lo]}
+				if pending {
+					t = &xSetE{op: '~', subs: []*xSetE{t}}
+				}
+				return t
+			}
+			here := pending && x.r.Intn(2) == 0 // the mark covers this whole group
+			p := lo + x.r.Intn(hi-lo)
+			t = &xSetE{op: ops[p], subs: []*xSetE{build(lo, p, pending && !here), build(p+1, hi, nots[p+1])}}
+			if here {
+				t = &xSetE{op: '~', subs: []*xSetE{t}}
+			}
+			return t
+		}
+		var fam []*xSetE
+		seen := map[string]bool{}
+		vals := map[uint64]bool{}
+		for i := 0; i < 8 && len(fam) < 3; i++ {
+			t := build(0, n-1, nots[0])
+			t.mp = x.r.Intn(2) == 0
+			full := t.render(false)
+			v := x.setVal(t)
+			if seen[full] || v == 0 || t.aliasClass() {
+				continue
+			}
+			seen[full] = true
+			vals[v] = true
+			fam = append(fam, t)
+		}
+		if len(fam) < 2 || (len(vals) < 2 && try < 20) {
+			continue
+		}
+		for _, t := range fam {
+			x.inject(g, &xPart{kind: xSetK, set: t})
+		}
+		x.feat["set"] = true
+		x.feat["family: sets with one name, different grouping"] = true
+		if len(vals) > 1 {
+			x.feat["family: sets with one name, different terminals"] = true
+		}
+		return
+	}
+}
+
+// separatorFamily adds lists over the SAME element to one grammar whose separators differ: two
+// different multi-terminal separators of equal length (both named only `_withsep`), or two different
+// single terminals.
+func (x *xGen) separatorFamily(g *xGram) {
+	elem := []*xPart{{kind: xSym, term: true, sym: x.r.Intn(x.k)}}
+	if x.r.Intn(4) == 0 {
+		elem = []*xPart{{kind: xSym, sym: x.r.Intn(x.nn)}}
+	}
+	ln := 1
+	if x.r.Intn(100) < 70 {
+		ln = 2 + x.r.Intn(2)
+	}
+	var seps [][]int
+	seen := map[string]bool{}
+	for i := 0; i < 20 && len(seps) < 2+x.r.Intn(2); i++ {
+		sp := make([]int, ln)
+		for j := range sp {
+			sp[j] = x.r.Intn(x.k)
+		}
+		if len(seps) > 0 && x.r.Intn(2) == 0 {
+			// a permutation of the first separator
+			sp = append([]int(nil), seps[0]...)
+			x.r.Shuffle(len(sp), func(a, b int) { sp[a], sp[b] = sp[b], sp[a] })
+		}
+		if seen[ints(sp)] {
+			continue
+		}
+		seen[ints(sp)] = true
+		seps = append(seps, sp)
+	}
+	if len(seps) < 2 {
+		return
+	}
+	plus := x.r.Intn(2) == 0
+	for _, sp := range seps {
+		var cp []*xPart
+		for _, e := range elem {
+			c := *e
+			cp = append(cp, &c)
+		}
+		pl := plus
+		if x.r.Intn(5) == 0 {
+			pl = !pl
+		}
+		x.inject(g, &xPart{kind: xList, plus: pl, parts: cp, sep: sp})
+	}
+	if ln > 1 {
+		x.feat["family: lists with different multi-terminal separators"] = true
+	} else {
+		x.feat["family: lists with different single separators"] = true
+	}
 }
 
 // ---------------------------------------------------------------------------------------------
@@ -1246,7 +1425,7 @@ func c13(c *Ctx) {
 	}
 	c.Extra["probe_empty_set_defect_present"] = emptySetBroken
 	c.Extra["probe_set_intersect_alias_defect_present"] = aliasBroken
-	c.Rule = "random surface trees of the rule notation over 2-4 single-character terminals and 1-4 nonterminals (rules of 0-4 parts, depth <= 3: optional parts, nested choices and sequences in parentheses, + and * quantifiers, (.. separator ..)+/* lists with 1-2 separator terminals, lists of lists, set(...) with terminals / first / last / any / | & ~, lookahead markers, state markers, arrows, %prec, assignments, commands, Xopt references; 40% of the quantified lists over a plain symbol reuse an earlier list element verbatim or as (.m X) / (X | %empty) / (X -> A) / (X {}) so that extractNonterm sees equal provisional names with equal and with different expressions); " +
+	c.Rule = "random surface trees of the rule notation over 2-4 single-character terminals and 1-4 nonterminals (rules of 0-4 parts, depth <= 3: optional parts, nested choices and sequences in parentheses, + and * quantifiers, (.. separator ..)+/* lists with 1-2 separator terminals, lists of lists, set(...) with terminals / first / last / any / | & ~, lookahead markers, state markers, arrows, %prec, assignments, commands, Xopt references; 40% of the quantified lists over a plain symbol reuse an earlier list element verbatim or as (.m X) / (X | %empty) / (X -> A) / (X {}) so that extractNonterm sees equal provisional names with equal and with different expressions; 14% of the grammars get a FAMILY of 2-3 set(...) clauses with the same flat atom/operator/~ sequence but different grouping (same provisional name, e.g. set(~('a' | 'b')) and set(~'a' | 'b')), 14% a family of lists over one element with different separators of equal length (multi-terminal separators are all named _withsep)); " +
 		"path tm: rendered as .tm text and compiled by the REAL compiler.Compile (LALR conflicts ignored, the rules are read from grammar.Parser.Rules); path model: the same trees as syntax.Model values with a random subset of lists right-recursive, through the real Expand/ResolveSets/generateTables (hook VerifModelGrammar); " +
 		"per grammar: struct (real rules vs Lean mirror, canonical form up to renaming of extracted nonterminals and rule order; mid-rule action nonterminals erased), sem (every string up to length 4-7 depending on alphabet size, every user nonterminal: brute-force derivability in the REAL rules vs the denotation evaluated in Lean), mem (random sentences of the real rules and their mutations, length up to 12); non-trivial = uses at least one extended construct, distinct by grammar text. " +
 		"Known defect classes, each probed on ONE fixed witness at start-up, reported through that witness and kept out of the random stream only while the probe shows the defect (VERIF_FINDINGS=1 keeps them in): [C13-empty-set] a set(...) that resolves to no terminal becomes an EMPTY RULE (derives the empty string) instead of deriving nothing; [C13-set-intersect-alias] an intersection whose first operand is a complement, e.g. set(~'c' & ('a' | 'c')), resolves to wrong terminals (util/set closure reuses its buffer). Also skipped: complements of nonterminal-dependent sets (may be cyclic); grammars on which the compiler panics (mid-rule action inside a list element next to a nested list; a C22 matter) are counted as rejected."
